@@ -14,6 +14,15 @@ CHECKS = {
     "C02": (A, "4.2", "offline sequence monitor in virtual time (exactly-once/in-order on a clean path, bounded recovery after a fault prefix)",
             "held on every executed scenario; liveness restated as bounded progress B = 30 virtual s; fault prefixes are seeded samples of up to 40 s",
             "B chosen from the code's timer chains; 'accepted' = frame whose transmission the reader started (the client's documented congestion drop is not acceptance)"),
+    "C05": (A, "4.5", "ASan/UBSan inside the real iodined + watchdog + health probe under structure-aware hostile datagram generators",
+            "no sanitizer report, exit or stall on any executed hostile input sequence (7 generator classes x 9 pre-attack session states x server options), and a session established before the attack still moved a frame each way afterwards",
+            "a clean sanitizer run is not memory safety (intra-object / non-adjacent overflows invisible); only executed paths are judged; GCC-defined signed '<<' (shift-base) is not counted as UB"),
+    "C08": (B, "4.8", "real client name builders -> strict name checker -> real server dispatcher in one process (statics reached by #include), over the full (L, domain length, codec) grid",
+            "held on every generated name: thorough tier covers every (L 100..255, domain length, codec) triple; legality/length/suffix checked by an independent label walker, extraction compared with payload[:reported]",
+            "domains, payload contents and user slots are seeded samples per triple; login needs 31 Base32 chars and is judged as prefix-only when the name budget is smaller"),
+    "C09": (B, "4.9", "real server reply writer -> real client reply reader in one process, every payload length, prefix/monotonicity/floor oracle, ASan on exact-size buffers",
+            "held on every executed (query type, codec, name, buffer size, length, content) case: every length 2..4096 in the thorough tier",
+            "payload contents are 5 styles; exact set judged per content style"),
     "C07": (B, "4.7", "sanitizer-instrumented unit driver with round-trip / alphabet / capacity oracle over enumerated inputs",
             "held on every executed (codec, input, capacity) case: exhaustive for inputs of 0..2 bytes x all capacities, adjacent byte pairs in every block position, every length up to 4096 with capacity sweeps; ASan guards exact-size buffers",
             "alphabet membership from doc/proto_00000502.txt; symbol order within an alphabet not asserted"),
